@@ -742,6 +742,7 @@ def run(ctx):
                  "get_math_program_data / get_objective_data / get_constraint_data of PathBasedRoutingProblem: assignments, "
                  "if/else, for loops with early return, try/except KeyError, list / dict subscripts, the numpy calls of the "
                  "cover matrix) and the combinator definitions of coq/theories/PyPath.v it prints into")
+    from props import pysem; pysem.run(ctx, pysem.GROUPS_FOR.get(ctx.pid, ()))
     rng = ctx.rng
     n_cases = 390 if ctx.quick else 6000
     ex_len = 5 if ctx.quick else 6
